@@ -221,7 +221,7 @@ def _all_values(obj, props):
     return vals
 
 
-def _check_index(scene, kind, idx, pre, scalar):
+def _check_index(scene, kind, idx, pre, scalar, twin=False):
     """-> None or (prop, message)."""
     make = _maker(scene)
     ref = _cache.get(('full', scene))
@@ -255,6 +255,8 @@ def _check_index(scene, kind, idx, pre, scalar):
             if np.isscalar(full[p]) or full[p] is None:
                 continue   # not a per-source quantity (isscalar, n_...)
             exp = _index(full[p], idx, scalar)
+            if twin and p == 'segment_flux':
+                exp = exp * 1.5          # perturbed oracle
             if p == 'labels':   # documented: always an iterable
                 got, exp = np.atleast_1d(got), np.atleast_1d(exp)
             if not _eq(got, exp):
@@ -299,7 +301,8 @@ def _run_index(case):
                 pre.append(p1)
         ctx.stats.obligations += 1
         cnt['n'] += 1
-        bad = _check_index(scene, kind, idx, pre, scalar)
+        bad = _check_index(scene, kind, idx, pre, scalar,
+                           twin=bool(case.get('twin')))
         params = dict(kind='index', scene=scene, ikind=kind,
                       idx=_ser(idx), pre=pre, scalar=scalar)
         if bad is None:
@@ -453,6 +456,8 @@ def cases(tier, seed):
             for k, p in enumerate(keyp):
                 cs.append(dict(kind='index', name=f'index-{scene}-pairs{k}',
                                scene=scene, pre=[p], pairs=['-'] + keyp))
+    cs.append(dict(kind='index', name='index-twin', scene='grid', pre=['-'],
+                   twin=True))
     cs.append(dict(kind='indep', name='independence-len1', len=1))
     cs.append(dict(kind='indep', name='independence-len2', len=2))
     return cs
